@@ -43,17 +43,17 @@ def run(ctx, scenarios, name):
 def gen_scenarios(rng, n):
     """Passwords produced by real recipes (ASCII and non-ASCII alphabets, words, separators, empty separators)."""
     o = lambda s: [ord(c) for c in s]
-    words = ["one", "two", "kettő", "ábc", "ice-cream", "漢字", "😀x", "zebra", "größe", "e\u0301tude", "क्ष", "שָׁלוֹם", "ก็"]
+    words = ["one", "two", "kettő", "ábc", "ice-cream", "漢字", "😀x", "zebra", "größe", "e\u0301tude", "क्ष", "שָׁלוֹם", "ก็", "re\ufffdpl", "\ufffd", "nb\u00a0sp"]
     out = []
     for _ in range(n):
         if rng.random() < 0.4:
             c = dict(len=rng.randint(1, 12), allow=rng.choice([0, 4, 15, 3]), require=0, exclude=rng.choice([0, 16]),
-                     allowChars=o(rng.choice(["", "űβ™λ", "é", "😀漢", "ab", "e\u0301a", "क\u094d"])), requireSets=[], excludeChars=[])
+                     allowChars=o(rng.choice(["", "űβ™λ", "é", "😀漢", "ab", "e\u0301a", "क\u094d", "a\ufffd", "\ufffd\u00a0"])), requireSets=[], excludeChars=[])
             if not c["allow"] and not c["allowChars"]:
                 c["allowChars"] = o("xyz")
             out.append(dict(op="gen", char=c))
         else:
-            sep = rng.choice([dict(sep="char", sepChar=[]), dict(sep="char", sepChar=o("-")), dict(sep="char", sepChar=o("¡")), dict(sep="char", sepChar=o("--⇒")), dict(sep="char", sepChar=o("\u0301")), dict(sep="char", sepChar=o("x\u0301")),
+            sep = rng.choice([dict(sep="char", sepChar=[]), dict(sep="char", sepChar=o("-")), dict(sep="char", sepChar=o("¡")), dict(sep="char", sepChar=o("--⇒")), dict(sep="char", sepChar=o("\u0301")), dict(sep="char", sepChar=o("x\u0301")), dict(sep="char", sepChar=o("\ufffd")),
                               dict(sep="SFDigits1", sepChar=[]), dict(sep="SFNone", sepChar=[]), dict(sep="SFSymbols", sepChar=[])])
             d = dict(op="gen", words=[o(w) for w in rng.sample(words, rng.randint(1, 6))], len=rng.randint(1, 6), cap=rng.choice(["none", "first", "all", "random", "one"]))
             d.update(sep)
